@@ -58,7 +58,11 @@ func (sc *sliceCtx) visit(v ssa.Value, stack []*ssa.Call) {
 		}
 		if n := len(stack); n > 0 {
 			call := stack[n-1]
-			if cal := call.Common().StaticCallee(); cal != nil {
+			cal := call.Common().StaticCallee()
+			if cal == nil && !call.Common().IsInvoke() {
+				cal = x.Parent() // a call through a local function value that was resolved by the caller of the slicer
+			}
+			if cal != nil {
 				for i, p := range cal.Params {
 					if p == x && i < len(call.Common().Args) {
 						sc.visit(call.Common().Args[i], stack[:n-1])
@@ -187,6 +191,15 @@ func (sc *sliceCtx) visitAllocPath(a ssa.Value, path []int, stack []*ssa.Call, s
 			} else if path[0] == -1 {
 				sc.visitAllocPath(u, path[1:], stack, seenA, depth+1)
 			}
+		case *ssa.MakeClosure:
+			// the variable is captured: the closure may store into it through its free variable
+			if fn, ok := u.Fn.(*ssa.Function); ok {
+				for i, bnd := range u.Bindings {
+					if bnd == a && i < len(fn.FreeVars) {
+						sc.visitAllocPath(fn.FreeVars[i], path, nil, seenA, depth+1)
+					}
+				}
+			}
 		}
 	}
 }
@@ -257,7 +270,11 @@ func (sc *sliceCtx) visitValuePath(v ssa.Value, path []int, stack []*ssa.Call, d
 	case *ssa.Parameter:
 		if n := len(stack); n > 0 {
 			call := stack[n-1]
-			if cal := call.Common().StaticCallee(); cal != nil {
+			cal := call.Common().StaticCallee()
+			if cal == nil && !call.Common().IsInvoke() {
+				cal = x.Parent()
+			}
+			if cal != nil {
 				for i, p := range cal.Params {
 					if p == x && i < len(call.Common().Args) {
 						sc.seen[v] = true
